@@ -8,7 +8,9 @@ package cluster
 // values) run against a real embedded etcd through the cluster API while consumers read
 // the four Sync* channels (fast, slow, gated so that the 10-slot channel fills); faults
 // are an in-process etcd server stop/start (quick, and outages longer than pull interval +
-// request timeout during which the periodic pulls fail), a watch blackout / cut through a TCP relay
+// request timeout during which the periodic pulls fail; followed by more writes, or placed
+// right after the last write of the history with a gated consumer released while the server
+// is down and no write after the recovery), a watch blackout / cut through a TCP relay
 // (second etcd client used only for the watch path) and a compaction that cancels the
 // lagging watch.  After the case the content of the key range at EVERY revision is read
 // back from etcd (Get WithRev) and every delivered snapshot is matched against it.
@@ -58,19 +60,26 @@ type c19SubSpec struct {
 }
 
 type c19Step struct {
-	Do      string       `json:"do"` // write subscribe waitfirst pause unpause cut stop start outage compact release settle sleep
+	Do      string       `json:"do"` // write subscribe waitfirst pause unpause cut stop start outage fill compact release settle sleep
 	Writers [][]c19Op    `json:"writers,omitempty"`
 	Subs    []c19SubSpec `json:"subs,omitempty"`
 	Ms      int          `json:"ms,omitempty"`
 	Fault   string       `json:"fault,omitempty"` // concurrent with a write step: restart | subscribe
-	After   int          `json:"after,omitempty"` // fired when this many ops of the step completed
+	After   int          `json:"after,omitempty"` // fired when this many ops of the step completed (outage step with coincide: the stop begins this many 100 us after the last writer)
 	DownMs  int          `json:"down_ms,omitempty"`
+	// outage step only: Writers = the LAST write of the history, made right before the server
+	// stop (or, Coincide, concurrently with it); ReleaseDown = gated consumers are released
+	// once the server is down; Pulls = number of request timeouts the server is held down
+	Coincide    bool `json:"coincide,omitempty"`
+	ReleaseDown bool `json:"release_while_down,omitempty"`
+	Pulls       int  `json:"hold_request_timeouts,omitempty"`
 }
 
 type c19Case struct {
 	Kind       string    `json:"kind"`
 	IntervalMs int       `json:"pull_interval_ms"`
 	Ending     string    `json:"ending"`
+	Last       string    `json:"last_write_before_stop,omitempty"` // outage-final: shape of the last write
 	Steps      []c19Step `json:"steps"`
 }
 
@@ -219,9 +228,26 @@ var c19Pattern = []string{
 }
 
 // c19LongPerBlock: after every len(c19Pattern) shuffled cases come this many
-// "outage-long" cases at fixed positions (with 4 shards: one per shard), so that the quick
-// tier always contains them.
+// "outage-long" cases and then as many "outage-final" cases at fixed positions (with the 8
+// quick shards: one of the two kinds per shard), so that the quick tier always contains them.
 const c19LongPerBlock = 4
+
+// c19LastWrites: shapes of the last write of an "outage-final" history.  blocker = the change
+// whose delivery finds the gated consumer's channel full (the syncer then sits in its send),
+// fin = the last write, made while the syncer is blocked and right before the server stops.
+var c19LastWrites = []struct {
+	name         string
+	blocker, fin []c19Op
+}{
+	{"value", []c19Op{{T: "put", K: "a"}}, []c19Op{{T: "put", K: "a"}}},
+	{"value", []c19Op{{T: "put", K: "a"}}, []c19Op{{T: "put", K: "a"}}},
+	{"delete", []c19Op{{T: "put", K: "a"}}, []c19Op{{T: "del", K: "a"}}},
+	{"create", []c19Op{{T: "del", K: "a"}}, []c19Op{{T: "put", K: "a"}}},
+	{"txn-swap", []c19Op{{T: "put", K: "a"}}, []c19Op{{T: "txn", Ks: []string{"a", "c"}, Del: []bool{true, false}}}},
+	{"delprefix", []c19Op{{T: "put", K: "a"}}, []c19Op{{T: "delprefix"}}},
+	{"delete-recreate", []c19Op{{T: "put", K: "a"}}, []c19Op{{T: "del", K: "a"}, {T: "put", K: "a"}}},
+	{"other-then-value", []c19Op{{T: "put", K: "a"}}, []c19Op{{T: "put", K: "b"}, {T: "put", K: "a"}}},
+}
 
 func c19GenCase(rng *rand.Rand, kind string) *c19Case {
 	cs := &c19Case{Kind: kind, IntervalMs: []int{100, 200, 300}[rng.Intn(3)]}
@@ -313,6 +339,47 @@ func c19GenCase(rng *rand.Rand, kind string) *c19Case {
 			add(c19Step{Do: "sleep", Ms: (3 + rng.Intn(3)) * cs.IntervalMs})
 		}
 		add(c19Step{Do: "write", Writers: writers(1+rng.Intn(2), 5, 12, 0.1)})
+	case "outage-final":
+		// The LAST write of the history precedes (or coincides with) the server stop; the
+		// server stays down for longer than pull interval + request timeout; after the
+		// recovery NOTHING is written any more.  Consumers of all speeds: at least one
+		// single-key and one prefix consumer are gated, their channel is filled (feedback
+		// paced puts, step "fill") and the syncer sits in its 11th send when the last write
+		// is made; they are released once the server is down, so that the pull triggered by
+		// the last write's watch event fails.  Whatever the syncer missed has to come from
+		// the periodic pull after the recovery.
+		add(prepop)
+		if rng.Intn(2) == 0 {
+			add(c19Step{Do: "write", Writers: writers(1+rng.Intn(2), 5, 12, 0.1)})
+		}
+		ensure := [][]c19Op{
+			{{T: "put", K: "a"}, {T: "put", K: "b"}},
+			{{T: "put", K: "a"}, {T: "put", K: "b"}, {T: "put", K: "c"}},
+			{{T: "put", K: "a"}, {T: "del", K: "c"}, {T: "put", K: "P"}},
+		}[rng.Intn(3)]
+		add(c19Step{Do: "write", Writers: [][]c19Op{ensure}})
+		allModes := []string{"fast", "slow", "gated"}
+		subs := c19GenSubs(rng, false, allModes)
+		subs[rng.Intn(2)].Mode = "gated"   // Sync or SyncRaw
+		subs[2+rng.Intn(2)].Mode = "gated" // SyncPrefix or SyncRawPrefix
+		for i := range subs {
+			if subs[i].Mode != "slow" {
+				subs[i].Delay = 0
+			}
+		}
+		add(c19Step{Do: "subscribe", Subs: subs})
+		if rng.Intn(3) == 0 {
+			add(c19Step{Do: "subscribe", Subs: c19GenSubs(rng, true, allModes)[rng.Intn(3):]})
+		}
+		lw := c19LastWrites[rng.Intn(len(c19LastWrites))]
+		cs.Last = lw.name
+		add(c19Step{Do: "fill", Writers: [][]c19Op{lw.blocker}})
+		// held down for: the periodic pull + one pull per watch event that can be queued
+		// behind the blocked send (the blocker's, if the syncer was blocked one change
+		// earlier than the harness saw, and the last write's), each failing after one
+		// request timeout
+		add(c19Step{Do: "outage", Ms: rng.Intn(800), Writers: [][]c19Op{lw.fin}, Coincide: rng.Intn(4) == 0, After: rng.Intn(31), ReleaseDown: true, Pulls: 2 + len(lw.fin)})
+		cs.Ending = "none"
 	case "subscribe-down":
 		add(prepop)
 		add(c19Step{Do: "stop"})
@@ -390,6 +457,14 @@ type c19Sub struct {
 	deliv    []c19Delivery
 	closed   bool
 	fullSeen int
+
+	// written by the case's main goroutine only (outage step, convergence phase)
+	fullAtStop        bool              // channel full when the server of an outage-after-last-write was stopped
+	atOutageEnd       bool              // the two fields below are set
+	viewAtOutageEnd   map[string]string // the consumer's view just before the server was started again
+	countAtOutageEnd  int
+	behindAtOutageEnd bool // that view differs from the final content
+	converged         bool
 }
 
 func (s *c19Sub) name() string {
@@ -619,9 +694,13 @@ type c19Run struct {
 	subs    []*c19Sub
 	subMu   sync.Mutex
 
-	longOutages  int         // outages with a failed reference pull
-	longNonEmpty bool        // ... during which the watched prefix held at least one key
-	outages      []c19Outage // server-down windows of the case (harness clock; classification only)
+	longOutages      int         // outages with a failed reference pull
+	lastWriteOutage  bool        // the case's long outage followed the LAST write of the history (outage-final)
+	coincide         bool        // ... and that write was issued concurrently with the server stop
+	revAtStop        int64       // revision read after the last write, before the server stop (before the concurrent last write when coincide)
+	opsSinceRecovery int64       // write operations the harness issued since the server came back (atomic)
+	longNonEmpty     bool        // ... during which the watched prefix held at least one key
+	outages          []c19Outage // server-down windows of the case (harness clock; classification only)
 
 	valCtr      int64
 	lastGoodRev int64 // last revision read while the server was up (lower bound for a subscription made while it is down)
@@ -743,6 +822,9 @@ func (cr *c19Run) writer(w int, ops []c19Op, after func()) {
 	c := cr.g.c
 	for _, op := range ops {
 		var err error
+		if op.T != "sleep" {
+			atomic.AddInt64(&cr.opsSinceRecovery, 1)
+		}
 		switch op.T {
 		case "put":
 			err = c.Put(cr.key(op.K), cr.newVal(w))
@@ -800,6 +882,7 @@ func (cr *c19Run) doRestart(downMs int) {
 		return
 	}
 	cr.outageEnd(false)
+	atomic.StoreInt64(&cr.opsSinceRecovery, 0)
 	cr.restarted = true
 	cr.r.Count("server_restarts_in_case", 1)
 }
@@ -1046,10 +1129,13 @@ func (cr *c19Run) step(st *c19Step) {
 			return
 		}
 		cr.outageEnd(false)
+		atomic.StoreInt64(&cr.opsSinceRecovery, 0)
 		cr.restarted = true
 		cr.r.Count("server_restarts_in_case", 1)
 	case "outage":
-		cr.longOutage(st.Ms)
+		cr.longOutage(st)
+	case "fill":
+		cr.fill(st)
 	case "compact":
 		rv, err := g.waitRev(c19HarnessTimeout)
 		if err != nil {
@@ -1077,14 +1163,82 @@ func (cr *c19Run) step(st *c19Step) {
 	}
 }
 
-// longOutage stops the server and keeps it down for at least request timeout + 3 pull
-// intervals (+ extraMs): every subscription's ticker fires within one interval after the
+// fill brings every gated subscription into the state "channel full, syncer sitting in
+// its next send": unique puts on the watched key, each one made only after the previous
+// one's snapshot arrived in the gated channels (feedback pacing: no snapshot is skipped and
+// no watch event piles up behind the send), until the channels are full; then the blocker
+// change (st.Writers[0]), whose snapshot cannot be sent.  Soft waits only.
+func (cr *c19Run) fill(st *c19Step) {
+	var gated []*c19Sub
+	for _, s := range cr.allSubs() {
+		if s.Spec.Mode == "gated" {
+			gated = append(gated, s)
+		}
+	}
+	if len(gated) == 0 {
+		return
+	}
+	level := func() (min int, full bool) {
+		min, full = 1<<30, true
+		for _, s := range gated {
+			n, c := s.qlen()
+			if n < min {
+				min = n
+			}
+			if n < c {
+				full = false
+			}
+		}
+		return
+	}
+	waitLevel := func(want int, max time.Duration) {
+		deadline := time.Now().Add(max)
+		for time.Now().Before(deadline) {
+			if min, full := level(); full || min >= want {
+				return
+			}
+			time.Sleep(3 * time.Millisecond)
+		}
+	}
+	waitLevel(1, 5*time.Second) // the first snapshot of the non-empty store
+	puts := 0
+	for ; puts < 40; puts++ {
+		min, full := level()
+		if full {
+			break
+		}
+		cr.writer(0, []c19Op{{T: "put", K: "a"}}, func() {})
+		waitLevel(min+1, 2*time.Second)
+	}
+	cr.r.Count("fill_puts", int64(puts))
+	if _, full := level(); !full {
+		cr.r.Count("fill_left_a_gated_channel_not_full", 1)
+	}
+	time.Sleep(cr.interval / 2)
+	if len(st.Writers) > 0 {
+		cr.writer(0, st.Writers[0], func() {})
+	}
+	// lower bound only: the blocker's watch event has been handled (pull + blocked send)
+	time.Sleep(2*cr.interval + 100*time.Millisecond)
+}
+
+// longOutage stops the server and keeps it down for at least Pulls (default 1) request
+// timeouts + 3 pull intervals (+ Ms): every subscription's ticker fires within one interval after the
 // stop, and the pull it starts gives up after the request timeout at the latest.  A
 // reference pull through the same cluster client, started one interval after the stop
 // (not earlier than the latest of those ticker pulls), is observed to FAIL before the
 // server is started again.  Lower bounds on real time only; no verdict depends on them.
-func (cr *c19Run) longOutage(extraMs int) {
+//
+// With st.Writers the step first makes the LAST write of the history (right before the
+// stop, or concurrently with it), and with ReleaseDown it releases the gated consumers as
+// soon as the server is down: the syncer, until then sitting in a send on a full channel,
+// handles the last write's watch event while no pull can succeed.
+func (cr *c19Run) longOutage(st *c19Step) {
 	g := cr.g
+	last := len(st.Writers) > 0
+	if last && !st.Coincide {
+		cr.write(&c19Step{Do: "write", Writers: st.Writers})
+	}
 	cur, rv, err := cr.current()
 	if err != nil {
 		cr.abort = "content not readable before the outage: " + err.Error()
@@ -1100,16 +1254,55 @@ func (cr *c19Run) longOutage(extraMs int) {
 			watchedKey++
 		}
 	}
+	var lastWg sync.WaitGroup
+	if last {
+		cr.lastWriteOutage, cr.coincide, cr.revAtStop = true, st.Coincide, rv
+		if st.Coincide {
+			// the content while the server is down is not known in advance
+			underPrefix, watchedKey = 0, 0
+			lastWg.Add(1)
+			started := make(chan struct{})
+			go func() {
+				defer lastWg.Done()
+				close(started)
+				cr.write(&c19Step{Do: "write", Writers: st.Writers})
+			}()
+			// the stop begins 0-3 ms after the writer: the write lands before the stop,
+			// is cut off by it, or is replayed from the log at the restart
+			<-started
+			time.Sleep(time.Duration(st.After) * 100 * time.Microsecond)
+		}
+	}
 	cr.outageBegin()
 	g.stopServer()
 	down := time.Now()
+	if last {
+		for _, s := range cr.allSubs() {
+			if n, c := s.qlen(); n == c {
+				s.fullAtStop = true
+				cr.r.Count("subscriptions_with_full_channel_at_server_stop", 1)
+			}
+		}
+	}
+	if st.ReleaseDown {
+		for _, s := range cr.allSubs() {
+			if s.Spec.Mode == "gated" {
+				s.release()
+				cr.r.Count("gated_consumers_released_while_server_down", 1)
+			}
+		}
+	}
 	refErr := make(chan error, 1)
 	go func() {
 		time.Sleep(cr.interval)
 		_, err := g.c.GetRawPrefix(cr.root)
 		refErr <- err
 	}()
-	hold := g.c.requestTimeout + 3*cr.interval + time.Duration(extraMs)*time.Millisecond
+	pulls := st.Pulls
+	if pulls < 1 {
+		pulls = 1
+	}
+	hold := time.Duration(pulls)*g.c.requestTimeout + 3*cr.interval + time.Duration(st.Ms)*time.Millisecond
 	for time.Since(down) < hold {
 		time.Sleep(20 * time.Millisecond)
 	}
@@ -1120,12 +1313,26 @@ func (cr *c19Run) longOutage(extraMs int) {
 	case <-time.After(c19HarnessTimeout):
 		cr.abort = "reference pull during the outage did not return"
 	}
+	lastWg.Wait()
 	heldMs := time.Since(down).Milliseconds()
+	if last {
+		// what every consumer has at the end of the outage; anything newer can only be
+		// delivered after the recovery
+		for _, s := range cr.allSubs() {
+			v := s.view()
+			cp := make(map[string]string, len(v))
+			for k, x := range v {
+				cp[k] = x
+			}
+			s.atOutageEnd, s.viewAtOutageEnd, s.countAtOutageEnd = true, cp, s.count()
+		}
+	}
 	if err := g.startServer(); err != nil {
 		cr.abort = "server start after the long outage failed: " + err.Error()
 		return
 	}
 	cr.outageEnd(failed)
+	atomic.StoreInt64(&cr.opsSinceRecovery, 0)
 	if cr.abort != "" {
 		return
 	}
@@ -1140,6 +1347,12 @@ func (cr *c19Run) longOutage(extraMs int) {
 	cr.longOutages++
 	cr.r.Count("long_outages_with_failed_reference_pull", 1)
 	cr.r.Max("max:long_outage_ms", heldMs)
+	if last {
+		cr.r.Count("long_outages_right_after_the_last_write", 1)
+		if st.Coincide {
+			cr.r.Count("long_outages_with_last_write_concurrent_to_server_stop", 1)
+		}
+	}
 	if underPrefix > 0 {
 		cr.r.Count("long_outages_over_nonempty_prefix", 1)
 		cr.longNonEmpty = true
@@ -1202,6 +1415,14 @@ func (cr *c19Run) converge() (fin map[string]c19RawKV, finRev int64, viols []c19
 	}
 	start := time.Now()
 	paused := cr.g.relay.isPaused()
+	// where the convergence phase lies relative to the faults of the case (signature only)
+	phase := ""
+	if cr.restarted && atomic.LoadInt64(&cr.opsSinceRecovery) == 0 {
+		phase = ":after-server-restart-without-later-write"
+		if cr.longOutages > 0 {
+			phase = ":after-long-outage-without-later-write"
+		}
+	}
 	for {
 		open := 0
 		for i, s := range subs {
@@ -1217,6 +1438,7 @@ func (cr *c19Run) converge() (fin map[string]c19RawKV, finRev int64, viols []c19
 			switch {
 			case c19EqKV(view, want):
 				x.done = true
+				s.converged = true
 				cr.r.Eval(1)
 				cr.r.Count("subscriptions_converged", 1)
 				switch {
@@ -1236,9 +1458,11 @@ func (cr *c19Run) converge() (fin map[string]c19RawKV, finRev int64, viols []c19
 			case x.since >= c19StuckCycles:
 				x.done = true
 				viols = append(viols, c19Viol{
-					sig: fmt.Sprintf("no-convergence:%s:%s", s.Spec.Kind, c19DiffClass(view, want)),
+					sig: fmt.Sprintf("no-convergence:%s:%s%s", s.Spec.Kind, c19DiffClass(view, want), phase),
 					detail: map[string]interface{}{
-						"subscription": s.name(), "view": view, "final_content": want, "final_revision": finRev,
+						"channel_full_at_server_stop": s.fullAtStop, "deliveries_at_end_of_outage": s.countAtOutageEnd,
+						"write_ops_issued_since_recovery": atomic.LoadInt64(&cr.opsSinceRecovery),
+						"subscription":                    s.name(), "view": view, "final_content": want, "final_revision": finRev,
 						"reference_pull_cycles_without_any_delivery": x.since, "pull_interval_ms": cr.cs.IntervalMs,
 						"deliveries_so_far": x.lastCount, "watch_blackout": s.Spec.Relay && paused,
 						"elapsed_s": time.Since(start).Seconds(),
@@ -1264,6 +1488,7 @@ func (cr *c19Run) converge() (fin map[string]c19RawKV, finRev int64, viols []c19
 				viols = nil
 				for i, s := range subs {
 					state[i] = st{lastCount: s.count()}
+					s.converged = false
 				}
 				continue
 			}
@@ -1578,6 +1803,45 @@ func (cr *c19Run) run() bool {
 			r.Count("deliveries_received_after_long_outage", int64(after))
 		}
 	}
+	if cr.lastWriteOutage && cr.longOutages > 0 {
+		// The last write preceded the long outage.  Did the store's content of the case's
+		// range change at any revision after the one read right before the server stop?
+		later := false
+		for rr := cr.revAtStop + 1; rr <= cr.truth.last(); rr++ {
+			if rr-1 >= cr.truth.from && !c19EqRaw(cr.truth.at(rr), cr.truth.at(rr-1)) {
+				later = true
+			}
+		}
+		suffix := "by_periodic_pull_only"
+		switch {
+		case !later:
+			// no write at all since before the stop: no watch event is produced after the
+			// recovery, what a subscription still lacks has to come from the periodic pull
+			r.Count("recoveries_without_any_later_write", 1)
+		case cr.coincide:
+			// the concurrently issued last write was applied (before the stop or when the
+			// server replayed its log)
+			r.Count("recoveries_after_last_write_concurrent_to_server_stop", 1)
+			suffix = "with_last_write_concurrent_to_stop"
+		default:
+			r.Count("recoveries_followed_by_a_late_applied_write", 1)
+			suffix = ""
+		}
+		for _, s := range subs {
+			if suffix == "" || !s.atOutageEnd || c19EqKV(s.viewAtOutageEnd, c19Project(fin, s)) {
+				continue
+			}
+			s.behindAtOutageEnd = true
+			r.Count("subscriptions_behind_final_content_at_end_of_outage", 1)
+			if s.fullAtStop {
+				r.Count("subscriptions_behind_at_end_of_outage_with_full_channel_at_stop", 1)
+			}
+			if s.converged && s.count() > s.countAtOutageEnd {
+				r.Count("converged_after_outage_"+suffix, 1)
+				r.Count("converged_after_outage_"+suffix+":"+s.Spec.Kind, 1)
+			}
+		}
+	}
 	for _, v := range viols {
 		v.detail["case_kind"] = cr.cs.Kind
 		v.detail["ending"] = cr.cs.Ending
@@ -1609,7 +1873,11 @@ func (cr *c19Run) run() bool {
 		if full > 0 {
 			r.Count("channel_full_observed", 1)
 		}
-		r.Cover(fmt.Sprintf("%s/%s/end=%s/deliveries=%s/final=%s", cr.cs.Kind, s.name(), cr.cs.Ending, c19Bucket(n), c19Bucket(len(c19Project(fin, s)))))
+		end := cr.cs.Ending
+		if cr.cs.Last != "" {
+			end = "last-write-before-stop:" + cr.cs.Last
+		}
+		r.Cover(fmt.Sprintf("%s/%s/end=%s/deliveries=%s/final=%s", cr.cs.Kind, s.name(), end, c19Bucket(n), c19Bucket(len(c19Project(fin, s)))))
 	}
 	if cr.idx < 2 {
 		per := map[string]int{}
@@ -1626,10 +1894,11 @@ func (cr *c19Run) run() bool {
 func TestVerif_C19_Syncer(t *testing.T) {
 	r := kit.Start(t, "C19")
 	defer r.Finish()
-	r.Rule("seeded histories against a real embedded etcd (cluster.New): 1-3 concurrent writers issue puts of UNIQUE values, deletes, same-value puts, delete-then-recreate, multi-key transactions and prefix deletes through the cluster API on 5 keys under the watched prefix (incl. the key equal to the prefix string and a key extending the single watched key) and 3 keys outside it; consumers of Sync/SyncRaw/SyncPrefix/SyncRawPrefix are fast, slow (20-120 ms per receive) or gated until the 10-slot channel is full; case kinds: empty start, pre-populated+burst+gated, transaction-heavy, subscribe during writes, static store, server stop/start during writes / right after the last write / before subscribing (quick restarts: down 0-1.5 s, shorter than the 4 s request timeout, so pulls merely stall), LONG server outage (4 per block of 44 cases, one per quick shard: non-empty watched prefix, all four Sync* kinds subscribed and settled, server down for >= request timeout + 3 pull intervals so that the periodic pulls FAIL - a reference pull through the same cluster client started one interval after the stop is observed to fail before the server is started again - then an idle period or writes after the recovery), watch blackout to the end or healed or cut (second etcd client through a TCP relay for the watch path only), compaction that cancels the lagging watch; each case ends with a chosen last change (value only, delete only, create only, delete+recreate, same value, txn swap, prefix delete, outside only, none).  Ground truth = Get(WithRev) of the key range at every revision of the case.  Every delivery - before, during and after an outage - must be the content at some revision at or after the subscription; a delivery that is not gets the signature <what it is>:<Sync kind>[:empty-snapshot][:while-server-down|:after-server-outage].  distinct = (case kind, subscription kind/mode/relay, ending, #deliveries bucket, final size bucket)")
+	r.Rule("seeded histories against a real embedded etcd (cluster.New): 1-3 concurrent writers issue puts of UNIQUE values, deletes, same-value puts, delete-then-recreate, multi-key transactions and prefix deletes through the cluster API on 5 keys under the watched prefix (incl. the key equal to the prefix string and a key extending the single watched key) and 3 keys outside it; consumers of Sync/SyncRaw/SyncPrefix/SyncRawPrefix are fast, slow (20-120 ms per receive) or gated until the 10-slot channel is full; case kinds: empty start, pre-populated+burst+gated, transaction-heavy, subscribe during writes, static store, server stop/start during writes / right after the last write / before subscribing (quick restarts: down 0-1.5 s, shorter than the 4 s request timeout, so pulls merely stall), LONG server outage (4 per block of 48 cases, one long-outage case of either sort per quick shard: non-empty watched prefix, all four Sync* kinds subscribed and settled, server down for >= request timeout + 3 pull intervals so that the periodic pulls FAIL - a reference pull through the same cluster client started one interval after the stop is observed to fail before the server is started again - then an idle period and writes after the recovery), LONG OUTAGE AFTER THE LAST WRITE (4 per block as well: all four Sync* kinds subscribed to a non-empty store, at least one single-key and one prefix consumer gated and the others fast, slow or gated; feedback-paced unique puts fill the gated 10-slot channels and one more change leaves the syncer sitting in its 11th send; then the LAST write of the history is made - value, delete, create, delete+recreate, txn swap, prefix delete, other key then value; in 1 of 4 cases concurrently with the stop - the server is stopped, the gated consumers are released while it is down so that the pull triggered by the last write's watch event fails, the server is held down for 3-4 request timeouts + 3 pull intervals with a failing reference pull, is started again, and NOTHING is written any more: what a subscription lacks at the end of the outage can only come from the periodic pull; the bounded-convergence oracle decides and its signature gets the suffix :after-long-outage-without-later-write, or :after-server-restart-without-later-write after a quick restart), watch blackout to the end or healed or cut (second etcd client through a TCP relay for the watch path only), compaction that cancels the lagging watch; each case ends with a chosen last change (value only, delete only, create only, delete+recreate, same value, txn swap, prefix delete, outside only, none).  Ground truth = Get(WithRev) of the key range at every revision of the case.  Every delivery - before, during and after an outage - must be the content at some revision at or after the subscription; a delivery that is not gets the signature <what it is>:<Sync kind>[:empty-snapshot][:while-server-down|:after-server-outage].  distinct = (case kind, subscription kind/mode/relay, ending, #deliveries bucket, final size bucket)")
 	r.Assume("relay subscriptions use the real syncer code with a second etcd client (through the harness relay) for the watch and the cluster's own client for pulls; the relay is black-holed only after the watch was established and never together with a server restart (a watch that must be (re)created while its connection is black-holed blocks the syncer loop, which cannot happen with the single client of production)")
 	r.Assume("bounded convergence replaces 'eventually': a subscription that differs from the final content and received nothing during 50 reference pull cycles (each = one pull interval of sleep + one successful pull through the cluster client, counted by the harness after the last write) is a violation; a firing 150 s watchdog otherwise is inconclusive")
 	r.Assume("a long outage is measured by the harness with lower bounds only: the server is kept stopped for at least request timeout (4 s) + 3 pull intervals after CloseServer returned and until a reference pull (cluster.GetRawPrefix, started one pull interval after the stop) has returned an error; the delivery phase (while-server-down / after-server-outage) in a signature comes from the consumer's receive time and only labels a violation, it never decides one")
+	r.Assume("'no write after the recovery' is established from etcd's own history: the content of the case's key range is the same at every revision after the one read between the last write and the server stop; a subscription counts as converged by the periodic pull only if its view at the end of the outage (taken before StartServer was called) differed from the final content, it received a delivery afterwards and ended equal to the final content.  When the server is started again the harness ends the gRPC reconnect back-off of the etcd clients (ResetConnectBackoff every 100 ms until the server is ready): after an outage of 10-20 s the next connection attempt could otherwise come later than the request timeout of easegress' start-up step 'register cluster name', which panics the process")
 	r.Assume("raw snapshots (SyncRaw/SyncRawPrefix) are additionally matched with create/mod revision, version and lease against the store at some revision; 'consecutive snapshots differ' and convergence are judged on keys and values only, since a same-value put changes only the mod revision")
 
 	g, err := c19NewRig(r)
@@ -1640,7 +1909,8 @@ func TestVerif_C19_Syncer(t *testing.T) {
 	defer g.close()
 
 	// blocks of len(c19Pattern) shuffled kinds followed by c19LongPerBlock long outages
-	blockLen := len(c19Pattern) + c19LongPerBlock
+	// with writes after the recovery and c19LongPerBlock long outages after the last write
+	blockLen := len(c19Pattern) + 2*c19LongPerBlock
 	n := r.N(blockLen, 25*blockLen)
 	for i := 0; i < n; i++ {
 		if !r.Mine(i) {
@@ -1648,6 +1918,9 @@ func TestVerif_C19_Syncer(t *testing.T) {
 		}
 		block, pos := i/blockLen, i%blockLen
 		kind := "outage-long"
+		if pos >= len(c19Pattern)+c19LongPerBlock {
+			kind = "outage-final"
+		}
 		if pos < len(c19Pattern) {
 			pat := append([]string(nil), c19Pattern...)
 			prng := r.Rand(fmt.Sprintf("plan/%d", block))
@@ -1692,4 +1965,15 @@ func TestVerif_C19_Syncer(t *testing.T) {
 		r.Require("long_outage_subscriptions_checked:"+k, 1)
 	}
 	r.Require("deliveries_received_after_long_outage", 1)
+	// the outage-after-the-last-write class: syncer sitting in a send on a full channel when
+	// the last write is made, server stopped, consumer released while it is down, outage
+	// longer than the failing pulls, recovery, no write any more: convergence by the
+	// periodic pull alone
+	r.Require("long_outages_right_after_the_last_write", 1)
+	r.Require("subscriptions_with_full_channel_at_server_stop", 1)
+	r.Require("gated_consumers_released_while_server_down", 1)
+	r.Require("recoveries_without_any_later_write", 1)
+	r.Require("subscriptions_behind_final_content_at_end_of_outage", 1)
+	r.Require("subscriptions_behind_at_end_of_outage_with_full_channel_at_stop", 1)
+	r.Require("converged_after_outage_by_periodic_pull_only", 1)
 }
